@@ -179,6 +179,36 @@ REFACTORS = [
   dict(id="ref:RF12-3", patch="refactors/RF12/patch3.diff", silent=["C08", "C12", "C37", "C26", "C07", "C39", "C03", "C32"]),
   dict(id="ref:RF12-4", patch="refactors/RF12/patch4.diff", silent=["C08", "C12", "C37", "C26", "C07", "C39", "C03", "C32"]),
   dict(id="ref:RF12-5", patch="refactors/RF12/patch5.diff", silent=["C08", "C12", "C37", "C26", "C07", "C39", "C03", "C32"]),
+  dict(id="ref:RF13-1", patch="refactors/RF13/patch1.diff", silent=["C13", "C14", "C09", "C12", "C31", "C17"]),
+  dict(id="ref:RF13-2", patch="refactors/RF13/patch2.diff", silent=["C13", "C14", "C09", "C12", "C31", "C17"]),
+  dict(id="ref:RF13-3", patch="refactors/RF13/patch3.diff", silent=["C13", "C14", "C09", "C12", "C31", "C17"]),
+  dict(id="ref:RF13-4", patch="refactors/RF13/patch4.diff", silent=["C13", "C14", "C09", "C12", "C31", "C17"]),
+  dict(id="ref:RF13-5", patch="refactors/RF13/patch5.diff", silent=["C13", "C14", "C09", "C12", "C31", "C17"]),
+  dict(id="ref:RF14-1", patch="refactors/RF14/patch1.diff", silent=["C16", "C17", "C38", "C04", "C05", "C09", "C11", "C12"]),
+  dict(id="ref:RF14-2", patch="refactors/RF14/patch2.diff", silent=["C16", "C17", "C38", "C04", "C05", "C09", "C11", "C12"]),
+  dict(id="ref:RF14-3", patch="refactors/RF14/patch3.diff", silent=["C16", "C17", "C38", "C04", "C05", "C09", "C11", "C12"]),
+  dict(id="ref:RF14-4", patch="refactors/RF14/patch4.diff", silent=["C16", "C17", "C38", "C04", "C05", "C09", "C11", "C12"]),
+  dict(id="ref:RF14-5", patch="refactors/RF14/patch5.diff", silent=["C16", "C17", "C38", "C04", "C05", "C09", "C11", "C12"]),
+  dict(id="ref:RF15-1", patch="refactors/RF15/patch1.diff", silent=["C02", "C08", "C09", "C10", "C11", "C12", "C05"]),
+  dict(id="ref:RF15-2", patch="refactors/RF15/patch2.diff", silent=["C02", "C08", "C09", "C10", "C11", "C12", "C05"]),
+  dict(id="ref:RF15-3", patch="refactors/RF15/patch3.diff", silent=["C02", "C08", "C09", "C10", "C11", "C12", "C05"]),
+  dict(id="ref:RF15-4", patch="refactors/RF15/patch4.diff", silent=["C02", "C08", "C09", "C10", "C11", "C12", "C05"]),
+  dict(id="ref:RF15-5", patch="refactors/RF15/patch5.diff", silent=["C02", "C08", "C09", "C10", "C11", "C12", "C05"]),
+  dict(id="ref:RF16-1", patch="refactors/RF16/patch1.diff", silent=["C01", "C02", "C07", "C09", "C11", "C12"]),
+  dict(id="ref:RF16-2", patch="refactors/RF16/patch2.diff", silent=["C01", "C02", "C07", "C09", "C11", "C12"]),
+  dict(id="ref:RF16-3", patch="refactors/RF16/patch3.diff", silent=["C01", "C02", "C07", "C09", "C11", "C12"]),
+  dict(id="ref:RF16-4", patch="refactors/RF16/patch4.diff", silent=["C01", "C02", "C07", "C09", "C11", "C12"]),
+  dict(id="ref:RF16-5", patch="refactors/RF16/patch5.diff", silent=["C01", "C02", "C07", "C09", "C11", "C12"]),
+  dict(id="ref:RF17-1", patch="refactors/RF17/patch1.diff", silent=["C32", "C26", "C08", "C12", "C37", "C25", "C04"]),
+  dict(id="ref:RF17-2", patch="refactors/RF17/patch2.diff", silent=["C32", "C26", "C08", "C12", "C37", "C25", "C04"]),
+  dict(id="ref:RF17-3", patch="refactors/RF17/patch3.diff", silent=["C32", "C26", "C08", "C12", "C37", "C25", "C04"]),
+  dict(id="ref:RF17-4", patch="refactors/RF17/patch4.diff", silent=["C32", "C26", "C08", "C12", "C37", "C25", "C04"]),
+  dict(id="ref:RF17-5", patch="refactors/RF17/patch5.diff", silent=["C32", "C26", "C08", "C12", "C37", "C25", "C04"]),
+  dict(id="ref:RF18-1", patch="refactors/RF18/patch1.diff", silent=["C33", "C30", "C15", "C09", "C10", "C12"]),
+  dict(id="ref:RF18-2", patch="refactors/RF18/patch2.diff", silent=["C33", "C30", "C15", "C09", "C10", "C12"]),
+  dict(id="ref:RF18-3", patch="refactors/RF18/patch3.diff", silent=["C33", "C30", "C15", "C09", "C10", "C12"]),
+  dict(id="ref:RF18-4", patch="refactors/RF18/patch4.diff", silent=["C33", "C30", "C15", "C09", "C10", "C12"]),
+  dict(id="ref:RF18-5", patch="refactors/RF18/patch5.diff", silent=["C33", "C30", "C15", "C09", "C10", "C12"]),
   dict(id="ref:sig-guard-forms", subs=[sub("support.py", "  if sig >= (1 << State.NSTATE):", "  if not (sig < 2 ** State.NSTATE):", nth=0)], silent=["C15"]),
 ]
 
